@@ -26,7 +26,7 @@ EXPLANATION = (
     "comparison inside collection equality must go through the boolean-aware comparison, not raw ==; runtime.equals guards both "
     "operands and core = routes every pair through it; every family __eq__ reaches seq_equals behind symmetric guards only."
 )
-DECIDES = "hash agreement inside the sequential equality family, boolean-aware element comparison, operand-symmetric equality entry points, stored hashes never leave their process through pickling"
+DECIDES = "hash agreement inside the sequential equality family, boolean-aware element comparison (sequences, map values, tagged literals), operand-symmetric equality entry points, stored hashes never leave their process through pickling"
 DECLINED = "transitivity over concrete triples of mixed numbers (Python numeric tower); key conflation inside third-party hash maps"
 TRUSTED = ["FT-delegate: __hash__ of pyrsistent plist/pdeque read from their Python sources; pvectorc is native (opaque)", "Python: True == 1, hash(True) == hash(1)"]
 ASSUMPTIONS = []
